@@ -464,7 +464,7 @@ pub fn run(ctx: &mut Ctx) {
         "'eventually resolved' is decided as bounded: by send + timeout".into(),
     ];
     ctx.run_regressions::<ManagerExactlyOnce>();
-    ctx.run::<ManagerExactlyOnce>(ctx.tier.pick(1_500, 40_000));
+    ctx.run::<ManagerExactlyOnce>(ctx.tier.pick(60_000, 1_000_000));
 }
 
 pub fn replay(ctx: &mut Ctx, doc: &Value) -> bool {
